@@ -18,11 +18,21 @@ def run(ctx, fx, file, state_struct, sig_suffix="::compute_state_signature", rul
             fn = Fn(rec)
             if fn.nargs == 1 and fn.ty(0) == "bool" and fn.ty(1).startswith("&") and "mut" not in fn.ty(1).split(" ")[0:2]:
                 getters.add(fid)
-    sig = [f for f in fx.fn_ids(file) if f.endswith(sig_suffix)]
-    if not sig or not getters:
-        ctx.obligation(rule, file, "signature function and flag getters present", False)
-        ctx.violation(rule, file, "anchor missing", "no %s or no bool getters on %s in %s" % (sig_suffix, state_struct, file), file, 1)
-        return 0
+    # the signature function is found by shape (returns bytes, reads a state flag), its name is only the fallback
+    sig = []
+    for f in fx.fn_ids(file):
+        rec = fx.raw(f)
+        if "::tests::" in f or "{closure" in f or (rec["self_ty"] or "").split("<")[0].endswith(state_struct):
+            continue
+        fn = Fn(rec)
+        if "Vec<u8>" in fn.ty(0) and any(c["f"] in getters for b, c in fn.calls()):
+            sig.append(f)
+    if len(sig) != 1:
+        sig = [f for f in fx.fn_ids(file) if f.endswith(sig_suffix)]
+    if len(sig) != 1 or not getters:
+        from vlib.run import Broken
+        raise Broken("%s: cannot identify the state-signature function (%d candidates) or the flag getters of %s in %s"
+                     % (rule, len(sig), state_struct, file))
     sig = sig[0]
 
     def called(fid):
